@@ -1,6 +1,8 @@
 (* C09 — boosts are Lorentz transformations with the documented relations.  Statements only. *)
 From Coq Require Import Reals.
 From VP Require Import Lib RLib Spec Compute Tables C09_boost C09_boost2.
+From VP Require ObjModel ObjNames NbModel NbApi NbChecks.
+Import ObjNames List.ListNotations.
 Open Scope R_scope.
 
 (* every storage of vector and booster reduces to the Cartesian variant (boost_beta3: all 72 signatures) *)
@@ -74,6 +76,15 @@ Theorem C09_tau_storage_keeps_tau : forall (x y z tau bx by_ bz : R), 0 <= tau -
   den4 (T_lorentz_boost_beta3 XY LZ TTau XY LZ x y z tau bx by_ bz)
   = den4 (T_lorentz_boost_beta3 XY LZ TT XY LZ x y z (sqrt (tau * tau + (x * x + y * y + z * z))) bx by_ bz).
 Proof. exact boost_beta3_tau_storage. Qed.
+
+
+(* the same laws hold in numba-compiled code: for these operations every program point of the numba-supported API has the
+   same outcome (class, coordinate system, field expressions over the generated compute definitions) through the
+   Numba overload layer as through the interpreter (T5 table, gen/NbApi*.v; exceptions: the C07 known findings) *)
+Theorem C09_compiled_boosts_are_the_interpreted_ones :
+  VP.NbChecks.agree_on [N_boostX_beta; N_boostY_beta; N_boostZ_beta; N_boostX_gamma; N_boostY_gamma; N_boostZ_gamma; N_boostX_pos; N_boost_p4; N_boost_beta3; N_boost; N_boostCM_of; N_boostCM_of_p4; N_boostCM_of_beta3; N_to_beta3]%list = true /\
+  Nat.ltb 100 (VP.NbChecks.count_on [N_boostX_beta; N_boostY_beta; N_boostZ_beta; N_boostX_gamma; N_boostY_gamma; N_boostZ_gamma; N_boostX_pos; N_boost_p4; N_boost_beta3; N_boost; N_boostCM_of; N_boostCM_of_p4; N_boostCM_of_beta3; N_to_beta3]%list) = true.
+Proof. vm_cast_no_check (conj (eq_refl true) (eq_refl true)). Qed.
 
 Example C09_nonvacuous : (3/5) * (3/5) + 0 * 0 + 0 * 0 < 1 /\ (0 < 5 /\ 3 * 3 + 0 * 0 + 0 * 0 < 5 * 5).
 Proof. repeat split; Lra.lra. Qed.
